@@ -243,7 +243,9 @@ Definition lookup_var (env : list (string * nat)) (st : state) (x : string) : re
   | None =>
       match lookup x (globals st) with
       | Some v => ROk v
-      | None => if existsb (String.eqb x) builtins then ROk (VBuiltin x) else RErr EUndefined
+      (* the front end rejects names that are bound nowhere, so a name that reaches this point is a
+         top-level `let` / `fn` whose statement has not executed yet: such a global reads as null *)
+      | None => if existsb (String.eqb x) builtins then ROk (VBuiltin x) else ROk VNull
       end
   end.
 
